@@ -163,7 +163,7 @@ func TestC17Random(t *testing.T) {
 
 func TestC17Exhaustive(t *testing.T) {
 	col := coll("C17", "exhaustive")
-	maxN := pick(5, 6)
+	maxN := pick(5, 7)
 	col.Rule = fmt.Sprintf("all forests <=%d nodes over {a,b} x spelling panel x {text default, text custom branch, JSON, dry-run with extension b} plus every malformation class at the last line", maxN)
 	i := 0
 	model.EnumForests(maxN, []string{"a", "b"}, func(f model.Forest) {
